@@ -561,6 +561,8 @@ DB = "nostr_relay/storage/db.py"
 BASE = "nostr_relay/storage/base.py"
 
 MUTANTS = [
+    M("c02-row-skipped", "nostr_relay/storage/db.py", "                                yield event_from_tuple(row)\n", "                                if not row[4]:\n                                    continue\n                                yield event_from_tuple(row)\n", "C02.rows"),
+    M("c02-stream-wait-for", "nostr_relay/storage/db.py", "                            async for row in result:\n                                yield event_from_tuple(row)", "                            async for row in result:\n                                int(row[4][0][1])\n                                yield event_from_tuple(row)", "C02.rows"),
 ] + [
     M("c02-" + m.id, m.rel, m.old, m.new, "C02.txn", m.where, False, m.count) for m in __import__("sa.props.c07", fromlist=["MUTANTS"]).MUTANTS if m.expect == "C07.sqlregion"
 ] + [
